@@ -159,6 +159,7 @@ def p12(v, case, obs, client=False):
             return []
         max_qos, rmax, amax = cfg[0], cfg[1] or 16, cfg[2]
     binds = set()
+    hq = {}               # handler -> QoS of the PUBLISH it was invoked for
     out_pub = set()       # QoS>0 publish ids the peer has sent and not seen finished
     out_other = set()
     recd = set()
@@ -200,12 +201,14 @@ def p12(v, case, obs, client=False):
             pass                          # PUBREL: released, or (MQTT 5) answered "packet identifier not found"
         elif op[0] == 1 and op[1] in (13, 14, 15):
             pass                          # PINGRESP / CONNECT / CONNACK after the handshake: decoded and ignored
-        elif op[0] == 2 and op[2] == 0:
-            pass
+        elif op[0] == 2 and (op[2] == 0 or (op[2] in (128, 131, 135, 144, 151, 153) and hq.get(op[1], 0) > 0)):
+            pass                          # handler ok, or (QoS > 0) refusing with a negative acknowledgement
         elif op[0] == 3 and op[2] in (0, 2):
             pass
         else:
             return []
+        for (h, qos, _pid, _t, _pl, _rt) in hs:
+            hq[h] = qos
         for (t, pid, r) in wire:
             if t == 0xE0:
                 if fatal is not None and r != fatal:
